@@ -128,6 +128,11 @@ func classify(role, s string) (verdict, netip.AddrPort) {
 		if !hasDottedQuad(s) {
 			return mustReject, netip.AddrPort{}
 		}
+		// a dotted quad wrapped in the syntax of something ELSE - a URL (scheme://, user@, /path, ?query, #fragment), a subnet in CIDR
+		// notation (/24) - is not an address in the form a.b.c.d[:port] by any reading
+		if strings.ContainsAny(s, "/@?#") {
+			return mustReject, netip.AddrPort{}
+		}
 		return dontCare, netip.AddrPort{}
 	}
 	switch role {
@@ -585,6 +590,19 @@ func genCase(t *rapid.T) aCase {
 			s = "192.168.1.100 " + s
 		}
 		return aCase{Role: role, S: s}
+	}
+	if rapid.IntRange(0, 11).Draw(t, "wrapped") == 0 {
+		// a valid address inside the syntax of something else: a URL with any of its parts, a subnet, an interface zone
+		s := genIP(t)
+		if rapid.Bool().Draw(t, "wrapped.port") {
+			s += fmt.Sprintf(":%d", rapid.SampledFrom([]int{1, 60000, 60001, 12345}).Draw(t, "wrapped.p"))
+		}
+		pre := rapid.SampledFrom([]string{"", "", "udp://", "tcp://", "UDP://", "http://", "uhppote://", "//", "udp:", "admin@", "tcp://admin:secret@"}).Draw(t, "prefix")
+		suf := rapid.SampledFrom([]string{"", "/", "/24", "/8", "/0", "/32", "/33", "/path", "?x=1", "#y", "/path?x=1#y", "%eth0", "/255.255.255.0"}).Draw(t, "suffix")
+		if pre == "" && suf == "" {
+			suf = "/24"
+		}
+		return aCase{Role: role, S: pre + s + suf}
 	}
 	s := genIP(t)
 	switch rapid.IntRange(0, 3).Draw(t, "port") {
